@@ -11,7 +11,7 @@ EXPLANATION = ('Inductive argument over the pipeline, each step a static rule: U
                'handed back to the caller (returned, appended to a MultiSubscription that the operator returns, or stored in a shared cell '
                'that the operator returns); U2 unsubscribe() of every composite subscription unsubscribes each part; U3 a subscriber\'s '
                'unsubscribe empties its observer slot; U4 task cancellation is atomic with running (same rule as C19.H3); U6 a shared observer slot delivers only while holding its cell guard, so unsubscribe (same cell) cannot return while a notification is in flight; U5 a late addition '
-               'to an unsubscribed composite is unsubscribed (same rule as C17.K2). Declined: lock-level interleavings beyond U6; virtual-time positions '
+               'to an unsubscribed composite is unsubscribed (same rule as C17.K2); U7 where an operator hands back a pair of its source subscription and a re-fillable handle cell (MutRc/MutArc<Option<handle>>, refilled by every next()), the pair tears the source down first, so no item can arm a fresh timer after the cell was emptied; U8 parts leave a MultiSubscription only through unsubscribe (same rule as C17.K6). Declined: lock-level interleavings beyond U6; virtual-time positions '
                'of the cut are irrelevant to a per-function invariant.')
 ASSUMPTIONS = ['a released resource (emptied slot, cancelled task) delivers nothing: C01.P3, C19.H3']
 
@@ -25,17 +25,21 @@ CONTROLS = [
     'U2|<verif_controls::OneSidedUnsub<A, B> as Subscription>::unsubscribe',
     'U6|<verif_controls::EarlyReleaseSlot<O> as Observer>::complete',
     'U3|<verif_controls::LazyMulti as Subscription>::unsubscribe',
+    'U7|<verif_controls::HandleFirstOp<S> as Observable>::Unsub',
 ]
 
 
 def check(cx):
-    res = u1(cx) + u2(cx) + u3(cx) + u6(cx)
+    res = u1(cx) + u2(cx) + u3(cx) + u6(cx) + u7(cx)
     for f in c19.h3(cx):
         res.append(Finding(ID, 'U4', f.key, f.ok, f.msg, f.loc, f.witness))
     for f in c17.k2(cx):
         res.append(Finding(ID, 'U5', f.key, f.ok, f.msg, f.loc, f.witness))
     for f in c17.k4(cx):
         res.append(Finding(ID, 'U3', f.key, f.ok, f.msg, f.loc, f.witness))
+    if not cx.control:
+        for f in c17.k6(cx):
+            res.append(Finding(ID, 'U8', f.key, f.ok, f.msg, f.loc, f.witness))
     return res
 
 
@@ -312,4 +316,61 @@ def u6(cx, tags=('MutRc<Option<_>>', 'MutArc<Option<_>>'), prop=None, rule='U6')
                                fn['span'], [node_desc(g, x) for x in bad]))
     if not cx.control and n < 2:
         res.append(Finding(prop or ID, rule, 'floor', False, 'shared slot observer impls not found'))
+    return res
+
+
+def u7(cx):
+    """pair subscriptions (ZipSubscription-like) tear their parts down in a fixed order; a re-fillable handle cell
+    (a shared Option<handle> that next() overwrites) must come after the source subscription in that order"""
+    F = cx.facts
+    res = []
+    order = {}
+    for im in F.impls_of('subscription::Subscription'):
+        tag = roles.impl_tag(cx, im)
+        fields = [n for n, t in roles.adt_fields(cx, tag)]
+        if len(fields) != 2:
+            continue
+        fn = F.impl_fn(im, 'unsubscribe')
+        if fn is None:
+            continue
+        g = cx.graph(fn['key'], inline=False)
+        seq = []
+        for n in g.nodes:
+            if n['kind'] == 'call' and n['name'] in UNSUB_NAMES and n['args']:
+                root, steps = access_path(n['args'][0])
+                if root[0] == 'arg' and root[1] == 1 and steps and steps[0] in fields and steps[0] not in seq:
+                    seq.append(steps[0])
+        adt = F.adts.get(tag)
+        if len(seq) == 2 and adt and len(adt['generics']) >= 2:
+            # position of the type parameter of each field among the generics of the pair type
+            pos = []
+            for f in seq:
+                t = F.ty(dict(roles.adt_fields(cx, tag))[f])
+                pos.append(adt['generics'].index(t['n']) if t['k'] == 'param' and t['n'] in adt['generics'] else None)
+            if None not in pos:
+                order[tag] = pos
+    n = 0
+    for im in F.impls_of('observable::Observable'):
+        tag = roles.impl_tag(cx, im)
+        if cx.control != ('verif_controls' in tag):
+            continue
+        for a in im.get('assoc_tys', []):
+            if a['n'] != 'Unsub':
+                continue
+            t = F.ty(a['t'])
+            if t['k'] != 'adt' or t['p'] not in order or len(t.get('a', [])) < 2:
+                continue
+            first, second = [F.ty(t['a'][i]) for i in order[t['p']]]
+            is_cell = lambda x: roles.is_cell_of(F, x, lambda o: roles.is_option_of(F, o))
+            is_src = lambda x: x['k'] == 'alias' and x.get('p') == 'observable::Observable::Unsub'
+            if not ((is_cell(first) and is_src(second)) or (is_cell(second) and is_src(first))):
+                continue
+            n += 1
+            ok = is_src(first)
+            res.append(Finding(ID, 'U7', '<%s as Observable>::Unsub' % im['self_s'], ok,
+                               'the source is torn down before the re-fillable handle cell' if ok else
+                               'unsubscribe() empties the handle cell before it silences the source: an item that arrives in between stores a fresh task handle that nobody cancels, and the task delivers after unsubscribe() returned',
+                               im['span']))
+    if not cx.control and n < 2:
+        res.append(Finding(ID, 'U7', 'floor', False, 'expected the debounce and throttle pair subscriptions, found %d' % n))
     return res
